@@ -279,11 +279,12 @@ def ackLoop (lastSacked : Int) : Nat → Nat → Nat → List SChunk → Nat × 
       ackLoop lastSacked fl (done + 1) doneBytes cs
     else (flight, done, doneBytes, c :: cs)
 
-/-- `seen`: the TSNs covered by the gap blocks, and `highest_seen_tsn` (the last one computed). -/
-def gapSeen (cum : Int) (gaps : List (Nat × Nat)) : List Int × Option Int :=
+/-- `seen`: the TSNs covered by the gap blocks (each block clipped to `limit`, the offset of the highest
+outstanding TSN), and `highest_seen_tsn` (the last one computed, initially the cumulative TSN). -/
+def gapSeen (cum : Int) (limit : Nat) (gaps : List (Nat × Nat)) : List Int × Int :=
   let all := gaps.flatMap fun g =>
-    (List.range (g.2 + 1 - g.1)).map fun i => (cum + ((g.1 + i : Nat) : Int)) % 4294967296
-  (all, all.getLast?)
+    (List.range (min g.2 limit + 1 - g.1)).map fun i => (cum + ((g.1 + i : Nat) : Int)) % 4294967296
+  (all, all.getLast?.getD cum)
 
 /-- HTNA loop. -/
 def htnaLoop (seen : List Int) (highestSeen : Int) :
@@ -321,8 +322,7 @@ def strikeLoop (seen : List Int) (hna : Int) (now1000 : Int) : Nat → Nat → T
             { t with sentQ := t.sentQ.modify pos fun c => { c with misses := misses } } loss
       else strikeLoop seen hna now1000 fuel (pos + 1) t loss
 
-/-- `_receive_sack_chunk` without the trailing flush/transmit. `none` = ignored (old SACK);
-`crash` = the `UnboundLocalError` on gap blocks that cover nothing. -/
+/-- `_receive_sack_chunk` without the trailing flush/transmit. `none` = ignored (old SACK). -/
 def Tx.receiveSack (t : Tx) (cum : Int) (gaps : List (Nat × Nat)) (now1000 : Int) :
     Outcome (Option (Tx × List TxEv)) :=
   if uint32_gt t.lastSacked cum then .ok none
@@ -334,14 +334,14 @@ def Tx.receiveSack (t : Tx) (cum : Int) (gaps : List (Nat × Nat)) (now1000 : In
     let r : Outcome (Tx × Nat × Bool) :=
       if gaps.isEmpty then .ok (t, doneBytes, false)
       else
-        let (seen, hs) := gapSeen cum gaps
-        match hs with
-        | none => if t.sentQ.isEmpty then .ok (t, doneBytes, false) else .crash "UnboundLocalError"
-        | some highestSeen =>
-          let (fl, db, hna, sent) := htnaLoop seen highestSeen t.flight doneBytes cum [] t.sentQ
-          let t := { t with flight := fl, sentQ := sent }
-          let (t, loss) := strikeLoop seen hna now1000 t.sentQ.length 0 t false
-          .ok (t, db, loss)
+        let limit : Nat := match t.sentQ.getLast? with
+          | some l => ((l.tsn - cum) % 4294967296).toNat
+          | none => 0
+        let (seen, highestSeen) := gapSeen cum limit gaps
+        let (fl, db, hna, sent) := htnaLoop seen highestSeen t.flight doneBytes cum [] t.sentQ
+        let t := { t with flight := fl, sentQ := sent }
+        let (t, loss) := strikeLoop seen hna now1000 t.sentQ.length 0 t false
+        .ok (t, db, loss)
     match r with
     | .ok (t, doneBytes, loss) =>
       -- congestion window
